@@ -35,8 +35,9 @@ theorem afterBlocks_snoc (cfg : Config S) (es : List (Ev (EvKind S))) (e : Ev (E
 
 structure LInv (cfg : Config S) (w : World S σ) : Prop where
   iter_eq : w.iter = w.rexecuted.length
+  /-- before the first step only requests issued through the providers have been observed -/
   fresh : w.initialized = false →
-    w.rtrace = [] ∧ w.rexecuted = [] ∧ w.loop.now = 0 ∧ w.finalized = false
+    (∀ o ∈ w.rtrace, ∃ n, Obs.isRequestOf n o) ∧ w.rexecuted = [] ∧ w.loop.now = 0 ∧ w.finalized = false
   shape : w.initialized = true →
     w.rtrace.filter isLife =
       (if w.finalized then (finalBlock cfg (reportedTime cfg w)).reverse else [])
@@ -50,7 +51,12 @@ theorem initialise_shape (cfg : Config S) (P : NodeId → Proto S σ) (w : World
     (h : LInv cfg w) (hi : w.initialized = false) :
     LInv cfg (initialise cfg P w) ∧ (initialise cfg P w).initialized = true
       ∧ (initialise cfg P w).finalized = false := by
-  obtain ⟨hrt, hex, hnow, hfin⟩ := h.fresh hi
+  obtain ⟨hreq, hex, hnow, hfin⟩ := h.fresh hi
+  have hrt : w.rtrace.filter isLife = [] := by
+    rw [List.filter_eq_nil_iff]
+    intro o ho
+    obtain ⟨n, hn⟩ := hreq o ho
+    simp [isLife_request hn]
   have e := (ext_logAll cfg Obs.handlerInit (by intro h n cb t e; cases e) cfg.handlers
     { w with initialized := true }).trans
     (ext_callbackAll cfg P .initialize (List.range cfg.nNodes) _)
@@ -71,8 +77,8 @@ theorem initialise_shape (cfg : Config S) (P : NodeId → Proto S σ) (w : World
         (ext_logAll cfg Obs.handlerInit (by intro h n cb t e; cases e) cfg.handlers
           { w with initialized := true }).now_eq
       unfold reportedTime; rw [this, hnow]; simp
-    rw [hrt0, hrt]
-    simp only [initBlock, List.reverse_append, List.append_nil, List.filter_append]
+    rw [hrt0]
+    simp only [initBlock, List.reverse_append, List.append_nil, List.filter_append, hrt]
     congr 1
     rw [List.filter_eq_self.mpr]
     intro o ho
@@ -181,10 +187,34 @@ theorem step_linv (cfg : Config S) (hdt : 0 ≤ cfg.dt) (P : NodeId → Proto S 
         · exact (finalise_shape cfg P _ hs.1 hs.2.1 hs.2.2).1
         · exact hs.1
 
+theorem runProg_linv_fresh (cfg : Config S) (n : NodeId) (p : Prog S σ) (w : World S σ)
+    (h : LInv cfg w) (hi : w.initialized = false) :
+    LInv cfg (runProg cfg n p w).1 ∧ (runProg cfg n p w).1.initialized = false := by
+  have e := ext_runProg cfg n p w
+  obtain ⟨hreq, hex, hnow, hfin⟩ := h.fresh hi
+  have hi' : (runProg cfg n p w).1.initialized = false := by rw [e.init_eq]; exact hi
+  refine ⟨⟨?_, ?_, ?_⟩, hi'⟩
+  · rw [e.iter_eq, e.exec_eq]; exact h.iter_eq
+  · intro _
+    obtain ⟨l, hl, hq⟩ := runProg_rtrace cfg n p w
+    refine ⟨?_, by rw [e.exec_eq]; exact hex, by rw [e.now_eq]; exact hnow, by rw [e.fin_eq]; exact hfin⟩
+    intro o ho
+    rw [hl] at ho
+    rcases List.mem_append.mp ho with ho | ho
+    · exact ⟨n, hq o ho⟩
+    · exact hreq o ho
+  · intro hc; rw [hi'] at hc; cases hc
+
+theorem initWith_linv (cfg : Config S) (P : NodeId → Proto S σ) (pre : List (NodeId × Prog S σ)) :
+    LInv cfg (initWith cfg P pre) ∧ (initWith cfg P pre).initialized = false :=
+  initWith_induction (C := fun w => LInv cfg w ∧ w.initialized = false)
+    ⟨init_linv cfg P, by rw [init_eq]; split <;> rfl⟩
+    (fun n p w h => runProg_linv_fresh cfg n p w h.1 h.2) pre
+
 theorem reachable_linv {cfg : Config S} (hdt : 0 ≤ cfg.dt) {P : NodeId → Proto S σ} {w : World S σ}
     (h : Reachable cfg P w) : LInv cfg w := by
-  obtain ⟨n, rfl⟩ := h
-  suffices ∀ n (w : World S σ), LInv cfg w → LInv cfg (steps cfg P n w) from this n _ (init_linv cfg P)
+  obtain ⟨pre, n, rfl⟩ := h
+  suffices ∀ n (w : World S σ), LInv cfg w → LInv cfg (steps cfg P n w) from this n _ (initWith_linv cfg P pre).1
   intro n
   induction n with
   | zero => intro w hw; exact hw
